@@ -47,11 +47,12 @@ WellFormed(v) == WellFormedClause(v) = "ok"
 \* ---------------------------------------------------------------- denotation
 PolyDen(v) ==
   LET n == Size(v.shape)
-      monos == [r \in 1..Len(v.rows) |-> RowMono(v.names, v.rows[r])]
-      ms == {monos[r] : r \in 1..Len(v.rows)}
+      nr == Len(v.rows)
+      monos == [r \in 1..nr |-> RowMono(v.names, v.rows[r])]
   IN [shape |-> v.shape,
       el |-> [k \in 1..n |->
-                 EClean([m \in ms |-> v.coefs[CHOOSE r \in 1..Len(v.rows) : monos[r] = m][k]])]]
+                LET nz == {r \in 1..nr : ~NIsZero(v.coefs[r][k])}     \* rows are distinct (WellFormed)
+                IN [m \in {monos[r] : r \in nz} |-> v.coefs[CHOOSE r \in nz : monos[r] = m][k]]]]
 ArrayDen(v) == [shape |-> v.shape, el |-> [k \in 1..Size(v.shape) |-> EConst(v.vals[k])]]
 Den(v) == IF v.kind = "poly" THEN PolyDen(v) ELSE ArrayDen(v)
 
